@@ -20,10 +20,12 @@ def build_pkg(sel: List[int], cur: Cur, style: int):
     reexport = rd(sel, cur, 3)  # 0 none, 1 by name, 2 with alias
     fshape = rd(sel, cur, N_FUN_SHAPES + 1) - 1
     cshape = rd(sel, cur, N_CLS_SHAPES + 1) - 1
+    if not THOROUGH and fshape >= 0 and cshape >= 0:
+        raise OutOfRange  # quick tier: function shapes and class shapes are varied one at a time
     eshape = rd(sel, cur, 3)
     docs = rd(sel, cur, 2) == 1
-    if not THOROUGH and ((fshape >= 0 and cshape >= 0) or (eshape == 0 and docs) or (eshape > 0 and not docs)):
-        raise OutOfRange  # quick tier: function shapes and class shapes are varied one at a time
+    if not THOROUGH and ((eshape == 0 and docs) or (eshape > 0 and not docs)):
+        raise OutOfRange
     fname = names.get("fun") if fshape >= 0 else None
     cname = names.get("cls") if cshape >= 0 else None
     if reexport:
@@ -91,8 +93,8 @@ def CANDIDATES(func: str):
     import itertools
 
     if func == "sites":
-        for sel in itertools.product(range(3), range(14), range(13), range(3), range(2)):
+        for sel in itertools.product(range(3), range(15), range(13), range(3), range(2)):
             yield [list(sel) + [0] * 5]
     else:
-        for sel in itertools.product(range(2), range(2), range(3), range(14), range(13), range(3), range(2)):
+        for sel in itertools.product(range(2), range(2), range(3), range(15), range(13), range(3), range(2)):
             yield [list(sel) + [0] * 3]
